@@ -2,6 +2,7 @@ SPECIFICATION Spec
 CONSTANTS
  Tasks <- T3
  Deps <- D3
+ Faulty <- NoFaulty
  Roots <- R3
  Mach <- M3
  MaxKills = 2
